@@ -72,8 +72,12 @@ LocalOnly ==
 \* Trust as the statement defines it.  cfg = [mode, all, list]; h = sequence
 \* of [a |-> "trust"|"distrust", p |-> peer] calls made so far.
 MaxOf(S) == CHOOSE x \in S : \A y \in S : y <= x
+\* h = sequence of [a, p]: a = "trust" | "distrust" (Trust/Distrust called on the component for
+\* peer p) or "call:<endpoint>" (remote peer p invoked an open endpoint). Only Trust/Distrust
+\* calls move trust: whatever an untrusted peer does with the endpoints open to it, it stays
+\* untrusted.
 LastAct(h, p) ==
-    LET idx == {i \in 1..Len(h) : h[i].p = p}
+    LET idx == {i \in 1..Len(h) : h[i].p = p /\ h[i].a \in {"trust", "distrust"}}
     IN IF idx = {} THEN "none" ELSE h[MaxOf(idx)].a
 ByConfig(cfg, p) == cfg.mode = "raft" \/ cfg.all \/ p \in cfg.list
 \* The statement leaves open what Distrust means where everyone is trusted by
@@ -124,7 +128,12 @@ TrustInit(cfg) == [mode |-> cfg.mode, all |-> cfg.all,
                    tset |-> IF cfg.mode = "crdt" THEN cfg.list ELSE {}]   \* crdt setup(): Trust(p) for the list
 DoTrust(ts, p)    == IF ts.mode = "crdt" THEN [ts EXCEPT !.tset = @ \cup {p}] ELSE ts   \* raft: no-op
 DoDistrust(ts, p) == IF ts.mode = "crdt" THEN [ts EXCEPT !.tset = @ \ {p}] ELSE ts
-DoAct(ts, act)    == IF act.a = "trust" THEN DoTrust(ts, act.p) ELSE DoDistrust(ts, act.p)
+\* as coded no open endpoint touches the trusted set: Cluster.ID and Cluster.Version only read,
+\* Cluster.PeerAdd ends in Consensus.AddPeer (crdt: no-op; raft: membership, everybody trusted anyway)
+DoOpenCall(ts, e, p) == ts
+DoAct(ts, act)    == IF act.a = "trust" THEN DoTrust(ts, act.p)
+                     ELSE IF act.a = "distrust" THEN DoDistrust(ts, act.p)
+                     ELSE ts
 RECURSIVE Fold(_, _)
 Fold(ts, h) == IF h = <<>> THEN ts ELSE Fold(DoAct(ts, Head(h)), Tail(h))
 \* raft: true; crdt: TrustAll, self, map
@@ -156,6 +165,11 @@ Trust(p)    == /\ ts' = DoTrust(ts, p)    /\ hist' = Append(hist, [a |-> "trust"
                /\ UNCHANGED <<cfg, holes>>
 Distrust(p) == /\ ts' = DoDistrust(ts, p) /\ hist' = Append(hist, [a |-> "distrust", p |-> p])
                /\ UNCHANGED <<cfg, holes>>
+
+\* remote peer p invokes the open endpoint e (join handshake, identity, version)
+OpenCall(e, p) == /\ e \in PolicyOpen /\ e \notin holes
+                  /\ ts' = DoOpenCall(ts, e, p) /\ hist' = Append(hist, [a |-> "call:" \o e, p |-> p])
+                  /\ UNCHANGED <<cfg, holes>>
 
 \* every observation the transcribed code can produce in this state
 Callers == {[p |-> Self, local |-> TRUE]} \cup {[p |-> q, local |-> FALSE] : q \in Remote}
